@@ -304,7 +304,22 @@ impl WTClient {
     /// Flags a given tower as misbehaving, storing the misbehaving proof in the database.
     pub fn flag_misbehaving_tower(&mut self, tower_id: TowerId, proof: MisbehaviorProof) {
         if let Some(tower) = self.towers.get_mut(&tower_id) {
-            self.dbm.store_misbehaving_proof(tower_id, &proof).unwrap();
+            // The tower may have been flagged already (a single proof is enough, keep the first one), or a receipt may already
+            // be stored for this very appointment (e.g. a retry that was interrupted right after storing it). In the latter
+            // case the receipt that proves the misbehavior takes its place.
+            if self.dbm.exists_misbehaving_proof(tower_id) {
+                log::debug!("A misbehaving proof for {tower_id} is already stored");
+            } else if self
+                .dbm
+                .load_appointment_receipt(tower_id, proof.locator)
+                .is_some()
+            {
+                self.dbm
+                    .store_misbehaving_proof_over_receipt(tower_id, &proof)
+                    .unwrap();
+            } else {
+                self.dbm.store_misbehaving_proof(tower_id, &proof).unwrap();
+            }
             tower.status = TowerStatus::Misbehaving;
         } else {
             log::error!("Cannot flag tower. Unknown tower_id: {tower_id}");
